@@ -66,3 +66,14 @@ json.dump({"comment": "reference layouts: per model struct the (tag, kind) seque
            "structs": {k: [[t, kk] for t, kk, ty in v] for k, v in sorted(lay.items())}},
           open(os.path.join(HERE, "spec", "layouts.json"), "w"), indent=1)
 print("wrote", len(lay), "layouts")
+
+from rules.facts import units
+import hashlib
+U = {}
+for b in F.bodies:
+    if "body" in b and not b.get("exp") and b["kind"] in ("Fn", "AssocFn"):
+        U[b["path"]] = [hashlib.sha1(u.encode()).hexdigest()[:10] for u in units(b["body"])]
+json.dump({"_comment": "per function: hashes of its simple statements / conditions / loop headers / results on the reviewed "
+                       "tree; used to measure how much of a function was rewritten",
+           "functions": U}, open(os.path.join(HERE, "spec", "units.json"), "w"), indent=0, sort_keys=True)
+print("wrote unit fingerprints of", len(U), "functions")
